@@ -611,3 +611,99 @@ def run_structured_kinds(rng: random.Random, n: int) -> list[str]:
     while len(out) < n:
         out += [rng.choice(["text", "text", "lyric", "section"])] * rng.choice([1, 3, 17, 20, 40, 70, 130, 260])
     return out[:n]
+
+
+# ------------------------------------------------------------------------------------------ ordinary features piled on the same ticks
+EVENT_WORDS = ["solo", "soloend", "section", "lyric", "phrase_start", "phrase_end", "end", "B", "TS", "N", "S", "E", "2"]
+
+
+def interaction_chart(rng: random.Random) -> dict:
+    """A chart in which ordinary features COINCIDE: a handful of 'hot' ticks, each of which may at once carry a tempo change, a
+    time-signature change, an anchor, a section + a lyric + a text event, a note of any shape (open+tap, forced chord, held chord)
+    in several tracks, a phrase that starts / ends / has length zero there, a sustain that is released exactly there, and track
+    events named like global-event words. Each feature alone is handled by the focused workloads; here they meet."""
+    res = rng.choice([192, 192, 480, 96, 100, 120, 7])
+    thr = model.hopo_threshold(res)
+    m = rng.randint(4, 14)
+    hot = [0] if rng.random() < 0.6 else [rng.choice([1, thr, res])]
+    for _ in range(m - 1):
+        hot.append(hot[-1] + rng.choice([1, max(1, thr - 1), max(1, thr), thr + 1, max(1, res // 2), res, res, 2 * res, 4 * res]))
+    tempos = [[0, usable_n(rng.choice([120000, 60000, 93000, 200000, 87500, 144330]))]]
+    timesigs = [[0, rng.choice([4, 3, 6]), rng.choice([None, None, 3])]]
+    anchors = []
+    for h in hot:
+        if h > 0 and rng.random() < 0.55:
+            tempos.append([h, usable_n(rng.choice([60000, 80000, 90500, 120000, 133333, 160000, 200000, 240000, 250001]))])
+            if rng.random() < 0.5:
+                anchors.append([h, rng.choice([0, 1, 999999, 10**6, rng.randint(0, 10**9)])])
+        if h > 0 and rng.random() < 0.4:
+            timesigs.append([h, rng.choice([2, 3, 4, 5, 6, 7, 9, 12]), rng.choice([None, None, 1, 2, 3, 4])])
+    if hot[0] == 0 and rng.random() < 0.3:
+        anchors.insert(0, [0, 0])
+    globals_ = []
+    for h in hot:
+        if rng.random() < 0.6:
+            kinds = rng.sample(["section", "lyric", "text", "lyric", "text"], rng.randint(1, 4))
+            for j, k in enumerate(kinds):
+                v = rng.choice(["solo", "soloend", "phrase_start", "phrase_end", "Verse 1", "a", "end", f"x{h}", "100%", "Solo 1"])
+                if k == "text" and (v.startswith("lyric ") or v.startswith("section ")):
+                    v = "end"
+                globals_.append([h, k, v])
+    shapes = ["single", "single", "chord", "held", "heldchord", "uneven", "open", "openheld"]
+
+    def make_track(first_forced_ok: bool):
+        groups, phrases, tevents = [], [], []
+        sel = [h for h in hot if rng.random() < 0.8] or [hot[0]]
+        for k, h in enumerate(sel):
+            nxt = sel[k + 1:] + [h + res]
+            target = rng.choice(nxt[:3]) - h  # a length that ends exactly on a later hot tick
+            shape = rng.choice(shapes)
+            g = {"tick": h, "lanes": {}, "open": None, "forced": False, "tap": False, "flag_len": 0}
+            if shape == "open":
+                g["open"] = 0
+            elif shape == "openheld":
+                g["open"] = target
+            elif shape == "single":
+                g["lanes"][str(rng.randrange(5))] = 0
+            elif shape == "held":
+                g["lanes"][str(rng.randrange(5))] = target
+            else:
+                ls = sorted(rng.sample(range(5), rng.choice([2, 2, 3, 5])))
+                for j, ln in enumerate(ls):
+                    g["lanes"][str(ln)] = 0 if shape == "chord" else target if shape == "heldchord" else (target if j == 0 else rng.choice([0, max(1, target // 2), target + 1]))
+            if k > 0 and rng.random() < 0.35:
+                g["forced"] = True
+            if rng.random() < 0.3:
+                g["tap"] = True
+            groups.append(g)
+        ticks = [g["tick"] for g in groups]
+        for _ in range(rng.choice([0, 1, 2, 3, 4])):
+            s = rng.choice(hot)
+            later = [h for h in hot if h > s]
+            e = rng.choice(later) if later and rng.random() < 0.75 else s + rng.choice([0, 1, res])
+            phrases.append([s, e - s])  # ends exactly on a hot tick (a note there is outside), or has length zero
+        phrases.sort(key=lambda p: p[0])
+        for _ in range(rng.choice([0, 1, 2, 3])):
+            tevents.append([rng.choice(hot), rng.choice(EVENT_WORDS)])
+        tevents.sort(key=lambda e: e[0])
+        return {"groups": groups, "phrases": phrases, "tevents": tevents}
+
+    pairs = rng.sample(ALL_PAIRS, rng.choice([1, 2, 2, 3]))
+    tracks = {f"{i}/{d}": make_track(False) for i, d in pairs}
+    truth = {"resolution": res, "tempos": tempos, "timesigs": timesigs, "anchors": anchors, "globals": globals_, "tracks": tracks}
+    if rng.random() < 0.5:
+        md, _ = gen_metadata(rng, "realistic", res)
+        truth["metadata"] = md
+    case = render_truth(truth, rng, newline=rng.choice(["\n", "\n", "\r\n"]), permute_groups=True)
+    case["profile"] = "interactions"
+    case["horizon"] = hot[-1] + 8 * res
+    return case
+
+
+def chart_or_interactions(rng: random.Random, i: int, profile: str, rec=None, **kw) -> dict:
+    """every fourth whole chart of a workload is one whose features coincide on a few ticks (interaction_chart)"""
+    if i % 4 == 3:
+        if rec is not None:
+            rec.cls("whole_chart_with_coinciding_features")
+        return interaction_chart(rng)
+    return gen_chart(rng, profile, **kw)
